@@ -721,7 +721,17 @@ impl Subject for SystemTime {
 
 impl Subject for Ipv4Addr {
     fn gen(rng: &mut Rng) -> Self {
-        Ipv4Addr::from(rng.next_u32())
+        // the special-purpose blocks std distinguishes, then uniform
+        match rng.below(12) {
+            0 => Ipv4Addr::new(0, 0, 0, 0),
+            1 => Ipv4Addr::new(127, 0, 0, 1),
+            2 => Ipv4Addr::new(255, 255, 255, 255),
+            3 => Ipv4Addr::new(10, rng.next_u32() as u8, 0, 1),
+            4 => Ipv4Addr::new(169, 254, rng.next_u32() as u8, rng.next_u32() as u8),
+            5 => Ipv4Addr::new(224, 0, 0, rng.next_u32() as u8),
+            6 => Ipv4Addr::new(192, 168, 0, rng.next_u32() as u8),
+            _ => Ipv4Addr::from(rng.next_u32()),
+        }
     }
     fn same(&self, o: &Self) -> bool {
         self == o
@@ -736,10 +746,37 @@ impl Subject for Ipv4Addr {
 
 impl Subject for Ipv6Addr {
     fn gen(rng: &mut Rng) -> Self {
-        let b = rng.bytes(16);
-        let mut a = [0u8; 16];
-        a.copy_from_slice(&b);
-        Ipv6Addr::from(a)
+        let v4 = Ipv4Addr::gen(rng).octets();
+        let tail = |pre: [u8; 12]| {
+            let mut a = [0u8; 16];
+            a[..12].copy_from_slice(&pre);
+            a[12..].copy_from_slice(&v4);
+            Ipv6Addr::from(a)
+        };
+        // address classes with their own meaning (unspecified, loopback, IPv4-mapped,
+        // IPv4-compatible, NAT64, link-local, multicast, documentation), sparse, uniform
+        match rng.below(14) {
+            0 => Ipv6Addr::UNSPECIFIED,
+            1 => Ipv6Addr::LOCALHOST,
+            2 | 3 => tail([0, 0, 0, 0, 0, 0, 0, 0, 0, 0, 0xff, 0xff]),
+            4 => tail([0; 12]),
+            5 => tail([0, 0x64, 0xff, 0x9b, 0, 0, 0, 0, 0, 0, 0, 0]),
+            6 => Ipv6Addr::new(0xfe80, 0, 0, 0, rng.next_u32() as u16, 0, 0, 1),
+            7 => Ipv6Addr::new(0xff02, 0, 0, 0, 0, 0, 0, rng.next_u32() as u16),
+            8 => Ipv6Addr::new(0x2001, 0xdb8, 0, 0, 0, 0, 0, rng.next_u32() as u16),
+            9 => Ipv6Addr::from([0xff; 16]),
+            10 => {
+                let mut a = [0u8; 16];
+                a[rng.usize_below(16)] = rng.next_u32() as u8;
+                Ipv6Addr::from(a)
+            }
+            _ => {
+                let b = rng.bytes(16);
+                let mut a = [0u8; 16];
+                a.copy_from_slice(&b);
+                Ipv6Addr::from(a)
+            }
+        }
     }
     fn same(&self, o: &Self) -> bool {
         self == o
